@@ -103,8 +103,10 @@ structure Pos where
 
 /-- `prettyParseError` up to the call of `drawMarker`: `none` = no caret (the error offset is
 unknown, or it lies before the window) -/
-def position (c : Win) (err : DecodeErr) : Option Pos :=
-  match errorOffset c.consumedBytes err with
+def position (c : Win) (err : DecodeErr) (skipped : Nat := 0) : Option Pos :=
+  -- `skipped` = `windowBuffer.skippedBytes` (since 4590891): leading blanks `isBatch` consumed before the
+  -- decoder started; decoder offsets are relative to them
+  match (errorOffset (c.consumedBytes - skipped) err).map (· + (skipped : Int)) with
   | none => none
   | some absOffset =>
     let windowStart : Int := (c.consumedBytes : Int) - (c.window.length : Int)
